@@ -33,9 +33,10 @@ ASSUMPTIONS = [
   "textAlign left is accepted for start and right for end",
   "exact region numbers are judged only for percentage lines on horizontal cues: the pinned edge (top / middle / bottom by "
   "line alignment) must be at N % (+-0.5 for fractional percentages, which may be rounded to whole percents); likewise "
-  "`line:0` pins the top edge at 0 % and `line:-1` the bottom edge at 100 % (no explicit line alignment, horizontal cue). "
-  "Region height, all numbers for other line numbers, for line numbers with an explicit alignment (WebVTT ignores it when "
-  "snapping to lines), for vertical cues, position and size are judged for containment and non-negative extent only",
+  "`line:0` pins the top edge at 0 % and `line:-1` the bottom edge at 100 % (horizontal cue). "
+  "Region height, all numbers for other line numbers, for vertical cues, position and size are judged for containment and "
+  "non-negative extent only; a line number with an explicit line alignment must select the region facts of the same cue read "
+  "alone without the alignment (WebVTT does not use the line alignment when snapping to lines)",
   "displayAlign is judged for percentage lines on horizontal cues and for cues without a line setting (after: WebVTT puts "
   "them on the last line); not judged for line numbers nor for percentage lines of vertical cues (WebVTT measures x from "
   "the left for both vertical directions)",
@@ -62,7 +63,7 @@ ASSUMPTIONS = [
 ]
 REQUIRED = ["files:read", "cues:compared", "clause:count-order", "clause:blocks-skipped", "clause:time", "clause:text",
             "clause:attrs", "clause:ts", "clause:geom-contain", "clause:geom-align", "clause:line-edge",
-            "clause:sharing-equal", "clause:isolation", "class:colliding-settings", "clause:roundtrip", "class:crlf", "class:lf", "class:hours", "class:no-hours", "class:id",
+            "clause:sharing-equal", "clause:isolation", "clause:line-number-alignment", "class:colliding-settings", "clause:roundtrip", "class:crlf", "class:lf", "class:hours", "class:no-hours", "class:id",
             "class:no-id", "class:note", "class:style", "class:region", "feat:b", "feat:i", "feat:u", "feat:c.fg", "feat:c.bg",
             "feat:lang", "feat:v", "feat:ruby", "feat:ruby-2pairs", "feat:depth3", "feat:ts", "feat:ts>=2", "feat:cref,numeric", "feat:cref,lrm-rlm", "feat:cref,amp-lt-gt-nbsp", "feat:multi-line",
             "feat:vertical", "feat:position", "feat:size", "set:line:num0", "set:line:neg", "set:line:pct", "set:align"]
@@ -644,6 +645,41 @@ def isolation(doc, ast, stats):
   return findings
 
 
+def snap_alignment(doc, ast, stats):
+  """WebVTT 7.2: a cue whose line is a line number snaps to lines and its line alignment is not used (it positions
+  percentage lines only).  `line:N,<alignment>` must therefore select the region facts of `line:N`: the cue is read again
+  alone in a file with the alignment removed and origin / extent / displayAlign / textAlign / writingMode are compared."""
+  import copy
+  findings = []
+  cues = [it for it in ast["items"] if it["k"] == "cue"]
+  ps = doc_paragraphs(doc)
+  if len(ps) != len(cues):
+    return findings
+  for ci, (cue, p) in enumerate(zip(cues, ps)):
+    ln = [v for n, v in cue["settings"] if n == "line"]
+    if len(ln) != 1 or "%" in ln[0] or "," not in ln[0]:
+      continue
+    bare = copy.deepcopy(cue)
+    bare["settings"] = [[n, v.partition(",")[0] if n == "line" else v] for n, v in cue["settings"]]
+    try:
+      p1 = doc_paragraphs(read_text(G.render_file(G.single_cue_file(bare))))
+    except Exception:  # pylint: disable=broad-except
+      continue
+    if len(p1) != 1:
+      continue
+    ra, ro = observe_region(p1[0]), observe_region(p)
+    if ra is None or ro is None:
+      continue
+    stats["clause:line-number-alignment"] += 1
+    diff = [k for k in _REGION_FACTS if ro[k] != ra[k]]
+    if diff:
+      sett = " ".join(n + ":" + v for n, v in cue["settings"])
+      findings.append({"clause": "line-number-alignment-used", "cue": ci,
+                       "what": f"cue {ci} [{sett}]: the line alignment of a line number changes the region: without it "
+                               + ", ".join(f"{k}={_show(ra[k])}" for k in diff) + "; with it " + ", ".join(f"{k}={_show(ro[k])}" for k in diff)})
+  return findings
+
+
 def evaluate(text, ast, stats, do_roundtrip=False, only_config=None):
   """Runs the reader on `text` and returns the findings against `ast`."""
   try:
@@ -654,6 +690,7 @@ def evaluate(text, ast, stats, do_roundtrip=False, only_config=None):
   findings = compare_doc(doc, ast, stats)
   if ast.get("isolate"):
     findings += isolation(doc, ast, stats)
+  findings += snap_alignment(doc, ast, stats)
   if do_roundtrip:
     findings += roundtrip(doc, stats, only_config)
   return findings, doc
